@@ -1,12 +1,31 @@
 import CssVerif.Lemmas.StrCodec
 /-!
 # C03 — serialise-then-parse is lossless; serialisation is a fixpoint (content codecs)
+
+Property theorems only (helpers: `Lemmas/StrCodec.lean`). Models: `Model/StrCodec.lean` (tokenizer unescaping,
+`helper.string/stringvalue/uri/urivalue`, token recognisers), `Model/StrSafe.lean` (the decidable `Safe` predicates),
+tied to the source by `tools/harness/c03.py`.
+
+`strE v` is what the serializer writes for a stored STRING value `v` (`helper.string`), `strD t` is what the DOM
+stores for a STRING token text `t` (`unicodesub`/`_repl`, `cleanstring`, `stringvalue`).
 -/
 namespace CssVerif.C03
 open CssVerif.StrCodec
 
-/-- placeholder while the check is wired up -/
-theorem string_quoted (v : List Nat) : (strE v).head? = some 0x22 := by
-  simp [strE, helperString]
+/-- T3.1 (strings, lossless): for EVERY safe stored value, what `helper.string` writes is read back as that value. -/
+theorem string_roundtrip (v : List Nat) (h : SafeStr v) : strD (strE v) = some v :=
+  strD_strE_of_scan .str rfl v h
+
+/-- T3.1 (strings, one token): for every safe stored value and every following text, the STRING production matches
+exactly the written text — the value does not end the string early and does not swallow what follows. -/
+theorem string_single_token (v rest : List Nat) (h : SafeStr v) :
+    lexString (strE v ++ rest) = some (strE v).length := by
+  have := lex_encTail .str rfl v rest h
+  simp only [strE, helperString_eq, lexString, List.cons_append, true_or, if_true, this]
+  simp
+
+/-- T3.1 (strings, fixpoint): writing what was read back from the written form gives the same text. -/
+theorem string_fixpoint (v : List Nat) (h : SafeStr v) : (strD (strE v)).map strE = some (strE v) := by
+  rw [string_roundtrip v h]; rfl
 
 end CssVerif.C03
